@@ -287,6 +287,14 @@ class FlowIRManifestKeyIsAbsolutePath(FlowIRManifestSyntaxException):
             f'Manifest target "{target}" is invalid because it is an absolute path')
 
 
+class FlowIRManifestKeyHasParentSegments(FlowIRManifestSyntaxException):
+    def __init__(self, target: str):
+        self.target = target
+
+        super(FlowIRManifestKeyHasParentSegments, self).__init__(
+            f'Manifest target "{target}" is invalid because it contains a parent-directory ("..") component')
+
+
 class FlowIRManifestSourceInvalidReferenceMethod(FlowIRManifestSyntaxException):
     def __init__(self, target: str, source: str):
         self.target = target
